@@ -132,8 +132,8 @@ Proof.
 Qed.
 Example ex_args_typed : args_typed env0 (fs_args ex_sig) ex_args.
 Proof. unfold args_typed. typed_list. Qed.
-Example ex_outs_skippable : outs_skippable ex_sig ex_args.
-Proof. unfold outs_skippable. vm_compute outs_of. repeat constructor; vm_compute; try reflexivity; try discriminate. Qed.
+Example ex_outs_skippable : outs_small ex_sig ex_args.
+Proof. unfold outs_small. vm_compute outs_of. repeat constructor; vm_compute; try reflexivity; try discriminate. Qed.
 Example ex_outs_fresh : outs_fresh env0 ex_sig ex_args.
 Proof.
   unfold outs_fresh. vm_compute out_fields. vm_compute outs_of.
@@ -165,7 +165,7 @@ Proof.
   - exact ex_sig_fine.
   - exact ex_args_typed.
   - exact ex_outs_skippable.
-  - exact ex_outs_fresh.
+  - split; [repeat constructor|exact eq_refl].
   - reflexivity.
   - exact ex_results_typed.
   - exact ex_req_sendable.
@@ -192,8 +192,8 @@ Definition fx_impl_empty : bytes -> list val -> smap -> smap -> impl_res := fun 
 Definition fx_qp := mkreq env0 fx_sig fx_args_prefilled ex_opts false 41 [79; 98; 106] 3000.
 Example fx_prefilled_typed : args_typed env0 (fs_args fx_sig) fx_args_prefilled.
 Proof. unfold args_typed. typed_list. Qed.
-Example fx_prefilled_skippable : outs_skippable fx_sig fx_args_prefilled.
-Proof. unfold outs_skippable. vm_compute outs_of. repeat constructor; vm_compute; try reflexivity; try discriminate. Qed.
+Example fx_prefilled_skippable : outs_small fx_sig fx_args_prefilled.
+Proof. unfold outs_small. vm_compute outs_of. repeat constructor; vm_compute; try reflexivity; try discriminate. Qed.
 Example fx_empty_typed : results_typed env0 fx_sig (results ex_ret fx_outs_empty).
 Proof. unfold results_typed. vm_compute rsp_fields. typed_list. Qed.
 Example fx_qp_sendable : req_sendable env0 SR MAXP fx_qp.
@@ -218,7 +218,7 @@ Proof. vm_compute. reflexivity. Qed.
 (* the instance of the full-strength value statement that the pinned code refuted now holds *)
 Theorem prefilled_out_witness :
   find_fn [fx_sig] (fs_name fx_sig) = Some fx_sig /\ sig_fine env0 2 4 fx_sig /\ args_typed env0 (fs_args fx_sig) fx_args_prefilled /\
-  outs_skippable fx_sig fx_args_prefilled /\ results_typed env0 fx_sig (results ex_ret fx_outs_empty) /\
+  outs_small fx_sig fx_args_prefilled /\ results_typed env0 fx_sig (results ex_ret fx_outs_empty) /\
   req_sendable env0 SR MAXP fx_qp /\ rsp_sendable env0 SP MAXP (ok_reply env0 fx_sig fx_qp ex_ret fx_outs_empty ex_rc ex_rs) /\
   fst (call env0 SR SP MAXP fx_impl_empty (filters_of inv_res ex_pc) (filters_of disp_res ex_ps) [fx_sig] fx_sig fx_args_prefilled ex_opts false 41 [79; 98; 106] 3000)
   = COk ex_ret fx_outs_empty [ex_rc; ex_rs].
@@ -226,3 +226,66 @@ Proof.
   exact (conj eq_refl (conj fx_sig_fine (conj fx_prefilled_typed (conj fx_prefilled_skippable (conj fx_empty_typed
           (conj fx_qp_sendable (conj fx_rp_sendable fx_prefilled_result))))))).
 Qed.
+
+(* ... and it is an instance of the theorem for arbitrary content of the out variables (EndToEndFull.transparent_ok_any_outs):
+   every hypothesis holds of the pre-filled call, by computation *)
+Example fx_no_arrays : no_array_params fx_sig.
+Proof. split; [repeat constructor|exact eq_refl]. Qed.
+Example fx_canonical : canonical_call env0 fx_sig fx_args_prefilled ex_ret fx_outs_empty.
+Proof. split; vm_compute; reflexivity. Qed.
+Example fx_prefilled_by_theorem :
+  call env0 SR SP MAXP fx_impl_empty (filters_of inv_res ex_pc) (filters_of disp_res ex_ps) [fx_sig] fx_sig fx_args_prefilled ex_opts false 41 [79; 98; 106] 3000
+  = (COk ex_ret fx_outs_empty [ex_rc; ex_rs], core_events ex_pc ex_ps fx_sig fx_args_prefilled ex_opts true).
+Proof.
+  apply (transparent_ok_any_outs env0 2 fx_env0_wf ltac:(lia) SR SP eq_refl eq_refl MAXP ltac:(vm_compute; reflexivity) 4
+           fx_impl_empty ex_pc ex_ps [fx_sig] fx_sig fx_args_prefilled ex_opts 41 [79; 98; 106] 3000 ex_ret fx_outs_empty ex_rc ex_rs).
+  - vm_compute. reflexivity.
+  - exact fx_sig_fine.
+  - exact fx_prefilled_typed.
+  - exact fx_prefilled_skippable.
+  - exact fx_no_arrays.
+  - reflexivity.
+  - exact I.
+  - exact fx_empty_typed.
+  - exact fx_canonical.
+  - exact fx_qp_sendable.
+  - exact fx_rp_sendable.
+Qed.
+
+(* ---------- why [canonical_call] is needed for exact values: an optional double member without a declared default
+   that holds -0.0 compares equal to the default 0.0, is not written, and the implementation receives +0.0
+   (void f(NumLast a) on the regenerated schema verifidl2.NumLast; everything else arrives exactly) ---------- *)
+Definition nz_sig : fsig := {| fs_name := [110; 122]; fs_ret := None; fs_args := [(TStruct sid_verifidl2_NumLast, false)] |}.
+Definition nz_args : list val := [VStruct [VStr [120]; VInt 7; VFlt 9223372036854775808; VFlt 0]].
+Definition nz_impl : bytes -> list val -> smap -> smap -> impl_res := fun _ _ _ _ => IOk None [] [] [].
+Example nz_typed : args_typed env0 (fs_args nz_sig) nz_args.
+Proof. unfold args_typed. typed_list. Qed.
+Example nz_minus_zero_arrives_as_plus_zero :
+  filter is_obs (snd (call env0 SR SP MAXP nz_impl (filters_of inv_res no_filters) (filters_of disp_res no_filters) [nz_sig] nz_sig nz_args [] false 41 [79] 3000))
+  = [EImpl (fs_name nz_sig) [VStruct [VStr [120]; VInt 7; VFlt 0; VFlt 0]] [] []]
+  /\ ins_seen env0 nz_sig nz_args <> ins_of nz_sig nz_args.
+Proof. split; [vm_compute; reflexivity|vm_compute; discriminate]. Qed.
+
+(* ---------- why [outs_skippable] is needed: int deep(out Node o, int a) with the caller's o holding a Node nested n
+   structs deep (2n-1 nesting levels on the wire: struct > list > struct > ...). The request carries o in front of a;
+   the dispatcher has to pass over it and skipField refuses more than maxSkipDepth = 512 levels: 256 structs pass,
+   257 make the call fail although the implementation never looks at o (same on the code: known finding
+   e2e/spurious-error/prefilled-out-argument-deeper-than-skip-limit) ---------- *)
+Fixpoint dp_chain (n : nat) (v : Z) : val :=
+  match n with
+  | O => VStruct [VInt v; VList []]
+  | S m => VStruct [VInt v; VList [dp_chain m (v + 1)%Z]]
+  end.
+Definition dp_sig : fsig :=
+  {| fs_name := [100; 101; 101; 112]; fs_ret := Some TI32; fs_args := [(TStruct sid_verife2e_Node, true); (TI32, false)] |}.
+Definition dp_impl : bytes -> list val -> smap -> smap -> impl_res :=
+  fun _ _ _ _ => IOk (Some (VInt 5)) [VStruct [VInt 1; VList []]] [] [].
+Definition dp_call (structs : nat) : call_res :=
+  fst (call env0 SR SP MAXP dp_impl (filters_of inv_res no_filters) (filters_of disp_res no_filters) [dp_sig] dp_sig
+            [dp_chain (structs - 1) 1; VInt 7] [] false 41 [79] 3000).
+Example dp_256_structs_pass : dp_call 256 = COk (Some (VInt 5)) [VStruct [VInt 1; VList []]] [].
+Proof. vm_compute. reflexivity. Qed.
+Example dp_257_structs_fail : dp_call 257 = CErr 1 sys_msg false.
+Proof. vm_compute. reflexivity. Qed.
+Example dp_257_typed : args_typed env0 (fs_args dp_sig) [dp_chain 256 1; VInt 7].
+Proof. unfold args_typed. repeat (apply Forall2_cons; [cbn [fst]; apply (has_type_b_sound env0 600); vm_compute; reflexivity|]). apply Forall2_nil. Qed.
